@@ -249,3 +249,14 @@ Proof.
     - cbn. repeat constructor; cbn; intuition lia. }
   vm_compute in N. inversion N as [|? ? Hin _]; subst. apply Hin. now left.
 Qed.
+
+(** Hypotheses satisfiable: reservoirs satisfying the invariant and in-range draws. *)
+Example reservoir_hypotheses_satisfiable :
+  rinv 2 {| r_items := [1]; r_total := 1 |} /\ rinv 2 {| r_items := [2; 3]; r_total := 7 |} /\
+  valid_draws [0; 5; 1] /\
+  r_items (fst (r_stream 2 (singles [5; 6; 7]) (resv_empty, [1]))) = [5; 7].
+Proof.
+  split; [unfold rinv; cbn; lia|]. split; [unfold rinv; cbn; lia|]. split.
+  - unfold valid_draws, two53. repeat constructor; lia.
+  - vm_compute. reflexivity.
+Qed.
